@@ -148,6 +148,10 @@ func c16Rules(p *core.Prog, r *core.Run) {
 			okRC = false
 		}
 	}
+	// ... and the code looked at is the whole extended code
+	if rcf := p.Func(DNS, "(Message).ResponseCode"); rcf != nil {
+		c13RCode(p, r, rcf, "C16.NOFAIL.rcode")
+	}
 	r.Check("C16.NOFAIL", "lookup:rcode-is-error", okRC, p.Pos(noc.Pos()), "a response with a non-zero (extended) response code always produces an error, whatever the code, so it is never cached as an empty answer")
 	// DoH error propagates
 	okE := false
